@@ -85,11 +85,12 @@ func runC17(c *Ctx) {
 		"DET-COLLECT|ctl17.SortKeyFuncPartial", "DET-COLLECT|ctl17.SortKeyCounting",
 		"DET-COLLECT|ctl17.DecoratePartial", "DET-COLLECT|ctl17.DecorateHalf", "DET-COLLECT|ctl17.DecorateForgotten", "DET-COLLECT|ctl17.ImageUnsorted",
 		"DET-COLLECT|ctl17.NamedLessPartial", "DET-COLLECT|ctl17.NamedPeek", "DET-MAPRANGE|ctl17.GuardLast",
-		"DET-COLLECT|ctl17.PassedOrdered", "DET-MAPRANGE|ctl17.FloatMinMax"}
+		"DET-COLLECT|ctl17.PassedOrdered", "DET-MAPRANGE|ctl17.FloatMinMax",
+		"DET-MAPRANGE|ctl17.ArgMinValue", "DET-MAPRANGE|ctl17.ArgMinFloatKey", "DET-MAPRANGE|ctl17.ArgMinPeek", "DET-COLLECT|ctl17.MinOfFloats", "DET-COLLECT|ctl17.FirstOfLocal"}
 	for _, w := range want {
 		c.check(fired[w] > 0, "DET-CONTROL", "control", w, token.NoPos, "positive control fired", "the positive control "+w+" was not reported: the rule is broken")
 	}
-	silent := []string{"ctl17.KeyedCopy", "ctl17.SortedKeys", "ctl17.MinMax", "ctl17.SortFuncTotal", "ctl17.SorterType", "ctl17.InnerLabel", "ctl17.SortKeyFunc", "ctl17.Decorate", "ctl17.NamedLess", "ctl17.GuardMinMax", "ctl17.PassedOrderFree", "ctl17.sortedOf", "ctl17.GenericSorted"}
+	silent := []string{"ctl17.KeyedCopy", "ctl17.SortedKeys", "ctl17.MinMax", "ctl17.SortFuncTotal", "ctl17.SorterType", "ctl17.InnerLabel", "ctl17.SortKeyFunc", "ctl17.Decorate", "ctl17.NamedLess", "ctl17.GuardMinMax", "ctl17.PassedOrderFree", "ctl17.sortedOf", "ctl17.GenericSorted", "ctl17.ArgMinKey", "ctl17.MinOfKeys"}
 	for _, s := range silent {
 		n := 0
 		for k, v := range fired {
@@ -451,6 +452,12 @@ func (d *detAnalyzer) collected(fn string, list []ast.Stmt, i int, obj types.Obj
 			}
 		}
 	}
+	if d.scopeEndsWithListY2(list, obj) {
+		// never put in order, and never needed in order: the variable is local to this statement list and
+		// every statement up to its end uses the slice in an order-free way (ext_y2.go)
+		d.emit("DET-COLLECT", fn, construct, pos, true, "collected and, to the end of the variable's scope, only used in ways that do not depend on the order of the elements", "")
+		return false, -1
+	}
 	d.emit("DET-COLLECT", fn, construct, pos, false, "", "the slice holding "+src+" (map iteration order) is never sorted in the statement list where it is built")
 	return false, -1
 }
@@ -743,6 +750,13 @@ func (d *detAnalyzer) orderFreeUse(st ast.Stmt, obj types.Object) (bool, string)
 		}
 		return false, "the slice is passed on or inspected"
 	case *ast.ReturnStmt:
+		// a result computed from the slice by len or by a function of the multiset of its elements
+		if d.onlyLen(st, obj) {
+			return true, ""
+		}
+		if ok, _ := d.onlyOrderFreeArgs(st, obj); ok {
+			return true, ""
+		}
 		return false, "the slice is returned unsorted"
 	}
 	if d.onlyLen(st, obj) {
@@ -930,7 +944,7 @@ func (b *bodyClass) stmt(s ast.Stmt) {
 			b.expr(s.X)
 		}
 	case *ast.IfStmt:
-		if b.firstIdiom(s) || b.firstIdiom(swapNegatedIf(s)) {
+		if b.firstIdiom(s) || b.firstIdiom(swapNegatedIf(s)) || b.argMinIdiomY2(s) {
 			return
 		}
 		b.stmt(s.Init)
